@@ -14,8 +14,9 @@ structure CallInv (oa : Option Nat) (i : CallInfo) (cl : Call) : Prop where
   T : i.T = cl.T
   setsLe : cl.sets.length ≤ 1
   overIff : (∃ t, cl.phase = .over t) ↔ cl.sets ≠ []
-  waiting : cl.phase = .waitOpen → oa = none ∧ i.preOpen = true ∧ cl.lowerGot = false
-  opened : ∀ t, oa = some t → cl.phase ≠ .waitOpen
+  waiting : ∀ g, cl.phase = .waitOpen g → oa = none ∧ i.preOpen = true ∧ cl.lowerGot = false ∧
+    g = (if 0 < cl.T then some (roundUp (cl.issueT + cl.T)) else none)
+  opened : ∀ t, oa = some t → ∀ g, cl.phase ≠ .waitOpen g
   liveDue : ∀ due, cl.phase = .live (some due) → due = roundUp (cl.issueT + cl.T) ∧ 0 < cl.T
   liveNone : cl.phase = .live none → cl.T = 0
   /-- TimeoutError is never set before t+T -/
@@ -24,15 +25,26 @@ structure CallInv (oa : Option Nat) (i : CallInfo) (cl : Call) : Prop where
 /-- the specification's memory of the first completed outcome agrees with the call -/
 def FirstOK (i : CallInfo) (cl : Call) : Prop := i.first = (cl.sets.getLast?).map (·.2)
 
-def Acceptable (v : Verdict) : Prop := v = .ok ∨ isOpenLate v = true
+def Acceptable (v : Verdict) : Prop := v = .ok
 
 theorem Acceptable.and {v : Verdict} {f : Unit → Verdict} (h1 : Acceptable v) (h2 : Acceptable (f ())) :
     Acceptable (v.and f) := by
-  rcases h1 with h | h
-  · subst h; exact h2
-  · cases v with
-    | ok => exact h2
-    | fail c ps => exact Or.inr h
+  unfold Acceptable at h1; subst h1; exact h2
+
+/-- whichever timer of the call is queued (the dispatcher's while the client opens, the timeout
+    sink's afterwards) is due at the rounded deadline -/
+theorem CallInv.armed {oa : Option Nat} {i : CallInfo} {cl : Call} (h : CallInv oa i cl) (due : Nat)
+    (hd : cl.armedDue = some due) : due = roundUp (cl.issueT + cl.T) ∧ 0 < cl.T := by
+  unfold Call.armedDue at hd
+  cases hp : cl.phase with
+  | waitOpen g =>
+    rw [hp] at hd; simp only at hd; subst hd
+    have := (h.waiting _ hp).2.2.2
+    by_cases hT : 0 < cl.T
+    · rw [if_pos hT] at this; exact ⟨by injection this, hT⟩
+    · rw [if_neg hT] at this; cases this
+  | live d => rw [hp] at hd; simp only at hd; subst hd; exact h.liveDue due hp
+  | over t => rw [hp] at hd; cases hd
 
 theorem viewOf_nsets (cl : Call) : (viewOf cl).nsets = cl.sets.length := rfl
 
@@ -43,11 +55,11 @@ theorem viewOf_res_one (cl : Call) (t : Nat) (o : Outcome) (h : cl.sets = [(t, o
     (viewOf cl).res = .done o := by
   simp [viewOf, h]
 
-/-- still pending: acceptable if the bound has not passed, or the client opened too late -/
+/-- still pending: acceptable as long as the bound has not passed -/
 theorem spec_pending (a : Acc) (idx c : Nat) (op : Op) (i : CallInfo) (cl : Call)
     (hs : cl.sets = []) (hf : i.first = none)
     (hb : 0 < i.T → (op.time > roundUp (i.issueT + i.T) ∨ (op.time = roundUp (i.issueT + i.T) ∧ op.isTick = true)) →
-      openLate a i = true) :
+      False) :
     Acceptable (specCall a idx op c i (viewOf cl)) := by
   unfold specCall
   simp only [viewOf_nsets, hs, List.length_nil, viewOf_res_nil cl hs, hf]
@@ -55,15 +67,13 @@ theorem spec_pending (a : Acc) (idx c : Nat) (op : Op) (i : CallInfo) (cl : Call
   by_cases hc : (decide (i.T > 0) && (decide (op.time > roundUp (i.issueT + i.T)) ||
       (decide (op.time = roundUp (i.issueT + i.T)) && op.isTick))) = true
   · have hT : 0 < i.T := by simp at hc; exact hc.1
-    have hlate : openLate a i = true := by
-      apply hb hT
-      simp only [Bool.and_eq_true, Bool.or_eq_true, decide_eq_true_eq] at hc
-      rcases hc.2 with h | ⟨h1, h2⟩
-      · exact Or.inl h
-      · exact Or.inr ⟨h1, h2⟩
-    rw [if_pos hc]
-    right; simp [isOpenLate, hlate]
-  · rw [if_neg hc]; exact Or.inl rfl
+    exfalso
+    apply hb hT
+    simp only [Bool.and_eq_true, Bool.or_eq_true, decide_eq_true_eq] at hc
+    rcases hc.2 with h | ⟨h1, h2⟩
+    · exact Or.inl h
+    · exact Or.inr ⟨h1, h2⟩
+  · rw [if_neg hc]; rfl
 
 /-- complete, and the specification already knew this outcome -/
 theorem spec_done_old (a : Acc) (idx c : Nat) (op : Op) (i : CallInfo) (cl : Call) (t : Nat) (o : Outcome)
@@ -71,21 +81,20 @@ theorem spec_done_old (a : Acc) (idx c : Nat) (op : Op) (i : CallInfo) (cl : Cal
     Acceptable (specCall a idx op c i (viewOf cl)) := by
   unfold specCall
   simp only [viewOf_nsets, hs, List.length_singleton, viewOf_res_one cl t o hs, hf]
-  simp
-  exact Or.inl rfl
+  simp [Acceptable]
 
 /-- just completed -/
 theorem spec_done_new (a : Acc) (idx c : Nat) (op : Op) (i : CallInfo) (cl : Call) (t : Nat) (o : Outcome)
     (hs : cl.sets = [(t, o)]) (hf : i.first = none)
     (hsrc : (o ≠ .timeout → i.posts.contains o = true) ∧
       (o = .timeout → i.posts.contains .timeout = true ∨ (0 < i.T ∧ i.issueT + i.T ≤ op.time)))
-    (hlate : 0 < i.T → op.time > roundUp (i.issueT + i.T) → openLate a i = true) :
+    (hlate : 0 < i.T → op.time > roundUp (i.issueT + i.T) → False) :
     Acceptable (specCall a idx op c i (viewOf cl)) := by
   unfold specCall
   simp only [viewOf_nsets, hs, List.length_singleton, viewOf_res_one cl t o hs, hf]
   simp only [show ¬ (1 > 1) by omega, if_false]
   apply Acceptable.and
-  · left
+  · show _ = Verdict.ok
     cases o with
     | ok v => have := hsrc.1 (by simp); simp at this; simp [this]
     | err e => have := hsrc.1 (by simp); simp at this; simp [this]
@@ -99,10 +108,8 @@ theorem spec_done_new (a : Acc) (idx c : Nat) (op : Op) (i : CallInfo) (cl : Cal
           simp [hp, this, h3]
   · by_cases hc : (decide (i.T > 0) && decide (op.time > roundUp (i.issueT + i.T))) = true
     · simp only [Bool.and_eq_true, decide_eq_true_eq] at hc
-      have := hlate hc.1 hc.2
-      simp only [hc.1, hc.2, decide_true, Bool.and_self, if_true]
-      right; simp [isOpenLate, this]
-    · simp only [hc]; exact Or.inl rfl
+      exact (hlate hc.1 hc.2).elim
+    · simp only [hc]; rfl
 
 
 theorem sets_cases (cl : Call) (h : cl.sets.length ≤ 1) :
@@ -142,14 +149,14 @@ theorem CallInv.congr {oa : Option Nat} {i i' : CallInfo} {cl : Call} (h : CallI
 theorem step_same (oa oa' : Option Nat) (a' : Acc) (ha' : a'.openAt = oa') (idx c : Nat) (op : Op)
     (i i' : CallInfo) (cl : Call) (hinv : CallInv oa i cl) (hfirst : FirstOK i cl)
     (hi : i'.cid = i.cid ∧ i'.issueT = i.issueT ∧ i'.T = i.T ∧ i'.preOpen = i.preOpen ∧ i'.first = i.first)
-    (hoa : oa' = oa ∨ (oa = none ∧ cl.phase ≠ .waitOpen))
-    (hpunct : ∀ due, cl.phase = .live (some due) → op.time ≤ due ∧ (op.isTick = true → op.time < due)) :
+    (hoa : oa' = oa ∨ (oa = none ∧ ∀ g, cl.phase ≠ .waitOpen g))
+    (hpunct : ∀ due, cl.armedDue = some due → op.time ≤ due ∧ (op.isTick = true → op.time < due)) :
     CallInv oa' i' cl ∧ Acceptable (specCall a' idx op c i' (viewOf cl)) ∧ FirstOK (note1 i' (viewOf cl)) cl := by
   have hinv' : CallInv oa' i' cl := by
     have h0 := hinv.congr (i' := i') ⟨hi.1, hi.2.1, hi.2.2.1, hi.2.2.2.1⟩
     rcases hoa with h | ⟨h1, h2⟩
     · rw [h]; exact h0
-    · exact ⟨h0.cid, h0.issueT, h0.T, h0.setsLe, h0.overIff, fun hp => absurd hp h2, fun _ _ => h2,
+    · exact ⟨h0.cid, h0.issueT, h0.T, h0.setsLe, h0.overIff, fun g hp => absurd hp (h2 g), fun _ _ => h2,
         h0.liveDue, h0.liveNone, h0.tmo⟩
   refine ⟨hinv', ?_, note1_first i' cl hinv.setsLe (Or.inr (by rw [hi.2.2.2.2]; exact hfirst))⟩
   rcases sets_cases cl hinv.setsLe with hs | ⟨t, o, hs⟩
@@ -157,23 +164,24 @@ theorem step_same (oa oa' : Option Nat) (a' : Acc) (ha' : a'.openAt = oa') (idx 
     intro hT hlate
     rw [hi.2.1, hi.2.2.1, hinv.issueT, hinv.T] at hlate
     rw [hi.2.2.1, hinv.T] at hT
-    cases hp : cl.phase with
-    | waitOpen =>
-      obtain ⟨w1, w2, _⟩ := hinv'.waiting hp
-      simp [openLate, w2, ha', w1]
-    | live d =>
-      cases d with
-      | none => have := hinv.liveNone hp; omega
-      | some due =>
-        obtain ⟨e, _⟩ := hinv.liveDue due hp
-        obtain ⟨p1, p2⟩ := hpunct due hp
-        rw [← e] at hlate
-        rcases hlate with h | ⟨h1, h2⟩
-        · omega
-        · have := p2 h2; omega
-    | over t =>
-      have := (hinv.overIff).mp ⟨t, hp⟩
-      exact absurd hs this
+    -- some timer of the call is queued for the rounded deadline, and the queue is punctual
+    have harmed : cl.armedDue = some (roundUp (cl.issueT + cl.T)) := by
+      unfold Call.armedDue
+      cases hp : cl.phase with
+      | waitOpen g =>
+        have := (hinv.waiting g hp).2.2.2
+        rw [if_pos hT] at this; simp [this]
+      | live d =>
+        cases d with
+        | none => have := hinv.liveNone hp; omega
+        | some due => obtain ⟨e, _⟩ := hinv.liveDue due hp; simp [e]
+      | over t =>
+        have := (hinv.overIff).mp ⟨t, hp⟩
+        exact absurd hs this
+    obtain ⟨p1, p2⟩ := hpunct _ harmed
+    rcases hlate with h | ⟨h1, h2⟩
+    · omega
+    · have := p2 h2; omega
   · exact spec_done_old a' idx c op i' cl t o hs (by rw [hi.2.2.2.2, hfirst, hs]; rfl)
 
 
@@ -182,7 +190,8 @@ theorem step_dispatch (a' : Acc) (now : Nat) (ha' : a'.openAt = some now) (idx c
     (hnow : op.time = now) (htick : op.isTick = false)
     (i i' : CallInfo) (cl : Call) (hinv : CallInv none i cl) (hfirst : FirstOK i cl)
     (hi : i'.cid = i.cid ∧ i'.issueT = i.issueT ∧ i'.T = i.T ∧ i'.preOpen = i.preOpen ∧ i'.first = i.first)
-    (hp : cl.phase = .waitOpen) :
+    (g : Option Nat) (hp : cl.phase = .waitOpen g)
+    (hpunct : ∀ due, cl.armedDue = some due → now ≤ due) :
     CallInv (some now) i' (cl.dispatch now) ∧
     Acceptable (specCall a' idx op c i' (viewOf (cl.dispatch now))) ∧
     FirstOK (note1 i' (viewOf (cl.dispatch now))) (cl.dispatch now) := by
@@ -191,7 +200,7 @@ theorem step_dispatch (a' : Acc) (now : Nat) (ha' : a'.openAt = some now) (idx c
     obtain ⟨t, ht⟩ := (hinv.overIff).mpr h
     rw [hp] at ht; cases ht
   have hf0 : i'.first = none := by rw [hi.2.2.2.2, hfirst, hs0]; rfl
-  obtain ⟨_, hpre, _⟩ := hinv.waiting hp
+  obtain ⟨_, hpre, _, hg⟩ := hinv.waiting g hp
   unfold Call.dispatch
   simp only [hp]
   by_cases hT : cl.T = 0
@@ -204,6 +213,11 @@ theorem step_dispatch (a' : Acc) (now : Nat) (ha' : a'.openAt = some now) (idx c
     apply spec_pending a' idx c op i' _ hs0 hf0
     intro h; rw [hi.2.2.1, hinv.T, hT] at h; omega
   · rw [if_neg hT]
+    have hTpos : 0 < cl.T := by omega
+    -- the dispatcher's own timer was queued for the rounded deadline; the queue is punctual
+    have hdue : now ≤ roundUp (cl.issueT + cl.T) := by
+      apply hpunct
+      unfold Call.armedDue; rw [hp, hg, if_pos hTpos]
     by_cases hd : cl.issueT + cl.T < now
     · -- the deadline has already passed: immediate TimeoutError
       rw [if_pos hd]
@@ -217,9 +231,9 @@ theorem step_dispatch (a' : Acc) (now : Nat) (ha' : a'.openAt = some now) (idx c
       · refine ⟨fun h => absurd rfl h, fun _ => Or.inr ⟨?_, ?_⟩⟩
         · rw [hi.2.2.1, hinv.T]; omega
         · rw [hi.2.1, hi.2.2.1, hinv.issueT, hinv.T, hnow]; omega
-      · intro _ _
-        simp only [openLate, hi.2.2.2.1, hpre, ha', Bool.true_and, decide_eq_true_eq]
-        rw [hi.2.1, hi.2.2.1, hinv.issueT, hinv.T]; exact hd
+      · intro _ hl
+        rw [hi.2.1, hi.2.2.1, hinv.issueT, hinv.T, hnow] at hl
+        omega
     · rw [if_neg hd]
       have hinv' : CallInv (some now) i'
           { cl with phase := .live (some (roundUp (cl.issueT + cl.T))), lowerGot := true } :=
@@ -229,7 +243,6 @@ theorem step_dispatch (a' : Acc) (now : Nat) (ha' : a'.openAt = some now) (idx c
       apply spec_pending a' idx c op i' _ hs0 hf0
       intro _ hlate
       rw [hi.2.1, hi.2.2.1, hinv.issueT, hinv.T, hnow, htick] at hlate
-      have := le_roundUp (cl.issueT + cl.T)
       rcases hlate with h | ⟨_, h⟩
       · omega
       · cases h
@@ -240,19 +253,20 @@ theorem step_respond (oa : Option Nat) (a' : Acc) (ha' : a'.openAt = oa) (idx c 
     (hi : i'.cid = i.cid ∧ i'.issueT = i.issueT ∧ i'.T = i.T ∧ i'.preOpen = i.preOpen ∧ i'.first = i.first)
     (hpost : i'.posts.contains o = true) (hl : cl.lowerGot = true)
     (henv : o = .timeout → 0 < cl.T ∧ cl.issueT + cl.T ≤ op.time)
-    (hpunct : ∀ due, cl.phase = .live (some due) → op.time ≤ due) :
+    (hpunct : ∀ due, cl.armedDue = some due → op.time ≤ due) :
     CallInv oa i' (cl.respond op.time o) ∧
     Acceptable (specCall a' idx op c i' (viewOf (cl.respond op.time o))) ∧
     FirstOK (note1 i' (viewOf (cl.respond op.time o))) (cl.respond op.time o) := by
   have hi4 : i'.cid = i.cid ∧ i'.issueT = i.issueT ∧ i'.T = i.T ∧ i'.preOpen = i.preOpen :=
     ⟨hi.1, hi.2.1, hi.2.2.1, hi.2.2.2.1⟩
   cases hp : cl.phase with
-  | waitOpen =>
-    have := (hinv.waiting hp).2.2; rw [hl] at this; cases this
+  | waitOpen g =>
+    have := (hinv.waiting g hp).2.2.1; rw [hl] at this; cases this
   | over t =>
     have he : cl.respond op.time o = cl := by unfold Call.respond; simp [hp]
     rw [he]
-    exact step_same oa oa a' ha' idx c op i i' cl hinv hfirst hi (Or.inl rfl) (by intro due h; rw [hp] at h; cases h)
+    exact step_same oa oa a' ha' idx c op i i' cl hinv hfirst hi (Or.inl rfl)
+      (by intro due h; unfold Call.armedDue at h; rw [hp] at h; cases h)
   | live d =>
     have hs0 : cl.sets = [] := by
       by_contra h
@@ -279,20 +293,51 @@ theorem step_respond (oa : Option Nat) (a' : Acc) (ha' : a'.openAt = oa) (idx c 
       | none => have := hinv.liveNone hp; omega
       | some due =>
         obtain ⟨e, _⟩ := hinv.liveDue due hp
-        have := hpunct due hp
+        have := hpunct due (by unfold Call.armedDue; rw [hp])
         rw [← e] at hlate; omega
 
-/-- (D) the timer action of the call runs -/
+/-- (D) a timer action of the call runs: the timeout sink's, or — while the client is still
+    opening — the dispatcher's own -/
 theorem step_fire (oa : Option Nat) (a' : Acc) (ha' : a'.openAt = oa) (idx c : Nat) (op : Op)
     (i i' : CallInfo) (cl : Call) (hinv : CallInv oa i cl) (hfirst : FirstOK i cl)
     (hi : i'.cid = i.cid ∧ i'.issueT = i.issueT ∧ i'.T = i.T ∧ i'.preOpen = i.preOpen ∧ i'.first = i.first)
     (hen : cl.fireEnabled op.time = true)
-    (hpunct : ∀ due, cl.phase = .live (some due) → op.time ≤ due) :
+    (hpunct : ∀ due, cl.armedDue = some due → op.time ≤ due) :
     CallInv oa i' (cl.fire op.time) ∧
     Acceptable (specCall a' idx op c i' (viewOf (cl.fire op.time))) ∧
     FirstOK (note1 i' (viewOf (cl.fire op.time))) (cl.fire op.time) := by
   cases hp : cl.phase with
-  | waitOpen => unfold Call.fireEnabled at hen; simp [hp] at hen
+  | waitOpen g =>
+    cases g with
+    | none => unfold Call.fireEnabled at hen; simp [hp] at hen
+    | some due =>
+      have hdue : due ≤ op.time := by unfold Call.fireEnabled at hen; simpa [hp] using hen
+      have hs0 : cl.sets = [] := by
+        by_contra h
+        obtain ⟨t, ht⟩ := (hinv.overIff).mpr h
+        rw [hp] at ht; cases ht
+      have hf0 : i'.first = none := by rw [hi.2.2.2.2, hfirst, hs0]; rfl
+      obtain ⟨e, hT⟩ := hinv.armed due (by unfold Call.armedDue; rw [hp])
+      have he : cl.fire op.time =
+          { cl with phase := .over .fired, sets := cl.sets ++ [(op.time, .timeout)] } := by
+        unfold Call.fire; simp [hp]
+      rw [he]
+      have hs' : (cl.sets ++ [(op.time, Outcome.timeout)]) = [(op.time, Outcome.timeout)] := by rw [hs0]; rfl
+      have hinv' : CallInv oa i'
+          { cl with phase := .over .fired, sets := cl.sets ++ [(op.time, .timeout)] } :=
+        ⟨hi.1.trans hinv.cid, hi.2.1.trans hinv.issueT, hi.2.2.1.trans hinv.T, by simp [hs0],
+          by simp, by simp, by simp, by simp, by simp,
+          by simp [hs0]
+             have := le_roundUp (cl.issueT + cl.T); exact ⟨hT, by omega⟩⟩
+      refine ⟨hinv', ?_, note1_first _ _ (by simp [hs0]) (Or.inl hf0)⟩
+      apply spec_done_new a' idx c op i' _ op.time .timeout hs' hf0
+      · refine ⟨fun h => absurd rfl h, fun _ => Or.inr ⟨?_, ?_⟩⟩
+        · rw [hi.2.2.1, hinv.T]; exact hT
+        · rw [hi.2.1, hi.2.2.1, hinv.issueT, hinv.T]
+          have := le_roundUp (cl.issueT + cl.T); omega
+      · intro _ hlate
+        rw [hi.2.1, hi.2.2.1, hinv.issueT, hinv.T, ← e] at hlate
+        have := hpunct due (by unfold Call.armedDue; rw [hp]); omega
   | over t =>
     cases t with
     | none => unfold Call.fireEnabled at hen; simp [hp] at hen
@@ -341,6 +386,6 @@ theorem step_fire (oa : Option Nat) (a' : Acc) (ha' : a'.openAt = oa) (idx c : N
           have := le_roundUp (cl.issueT + cl.T); omega
       · intro _ hlate
         rw [hi.2.1, hi.2.2.1, hinv.issueT, hinv.T, ← e] at hlate
-        have := hpunct due hp; omega
+        have := hpunct due (by unfold Call.armedDue; rw [hp]); omega
 
 end Scales.FrontEnd
